@@ -28,7 +28,7 @@ def generate(ck, fam, count, extra_args=(), procs=8):
         n = min(per, count - first)
         if n <= 0:
             break
-        out = "%s/tmp/%s-%s-%d.jsonl" % (lib.WORK, ck.prop, fam, k)
+        out = "%s/tmp/%s-%s-%d-%d.jsonl" % (lib.WORK, ck.prop, fam, os.getpid(), k)
         jobs.append((first, n, out))
 
     def one(j):
@@ -91,7 +91,8 @@ def model_view(ck, case, k, module="Corr.SyncCorr", view="model_view"):
 
 
 def triage(ck, fam, cases, verdicts, wfs, clause, nontrivial, oracle_ok=lambda c: c["oracle"]["ok"],
-           module="Corr.SyncCorr", fn="check_scase", ctype="scase", known_match=None, view="model_view"):
+           module="Corr.SyncCorr", fn="check_scase", ctype="scase", known_match=None, view="model_view",
+           spec_is_property=False):
     """Decide what the observed disagreements mean.  Returns number of violations added."""
     bad_oracle = [i for i, c in enumerate(cases) if not oracle_ok(c)]
     diffs = [i for i, v in enumerate(verdicts) if v != 0 and oracle_ok(cases[i])]
@@ -138,7 +139,26 @@ def triage(ck, fam, cases, verdicts, wfs, clause, nontrivial, oracle_ok=lambda c
                 "other_failing_cases": len(unknown) - 1})
             ck.violation(path)
             added += 1
-    if diffs and not added:
+    if diffs and not added and spec_is_property:
+        # the Coq side evaluates the property's own specification on the observed results: a
+        # disagreement is a failing input
+        unknown = [j for j in diffs if not (known_match and known_match(cases[j]))]
+        for j in diffs:
+            k = known_match(cases[j]) if known_match else None
+            if k and k not in ck.known:
+                ck.known.append(k)
+        if unknown:
+            i = min(unknown, key=lambda j: len(json.dumps(cases[j]["script"])))
+            c = cases[i]
+            mv = model_view(ck, c, verdicts[i], module, view)
+            path = ck.write_replay(fam + "-spec", {
+                "property": ck.prop, "kind": "failing input (the protocol specification evaluated in Coq on the observed results)",
+                "clause": clause, "script": c["script"], "first_nonconforming_call": verdicts[i],
+                "specification_state_and_expected_result": mv, "implementation_oracle": c["oracle"],
+                "other_failing_cases": len(unknown) - 1})
+            ck.violation(path)
+            added += 1
+    elif diffs and not added:
         # the correspondence no longer checks; the oracle passed on every case explored
         i = min(diffs, key=lambda j: len(json.dumps(cases[j]["script"])))
         c = cases[i]
@@ -176,7 +196,8 @@ def triage(ck, fam, cases, verdicts, wfs, clause, nontrivial, oracle_ok=lambda c
 
 def run_family(ck, fam, count, clause, nontrivial, extra_args=(), corpus=True, known_match=None,
                oracle_ok=lambda c: c["oracle"]["ok"], module="Corr.SyncCorr", fn="check_scase",
-               ctype="scase", wf="wf_scase", per_file=60, view="model_view"):
+               ctype="scase", wf="wf_scase", per_file=60, view="model_view", tag=None, spec_is_property=False):
+    fam_tag = fam if tag is None else fam + "-" + tag
     cases = []
     if corpus:
         for p in sorted(glob.glob("%s/corpus/%s/*.json" % (lib.VERIF, ck.prop))):
@@ -199,17 +220,17 @@ def run_family(ck, fam, count, clause, nontrivial, extra_args=(), corpus=True, k
         ck.obligations.append(("correspondence " + fam, False, "harness process failed"))
         return cases
     evalable = [c for c in cases if c.get("coq") is not None]
-    verdicts, wfs = coq_verdicts(ck, fam, evalable, module, ctype, fn, wf, per_file)
+    verdicts, wfs = coq_verdicts(ck, fam_tag, evalable, module, ctype, fn, wf, per_file)
     for c in evalable:
         ck.count_case(c["script"], nontrivial(c))
-        ck.add_features(fam, c["features"])
+        ck.add_features(fam_tag, c["features"])
     if len(ck.samples) < 4 and evalable:
         ck.samples.append({"family": fam, "script": evalable[-1]["script"], "oracle": evalable[-1]["oracle"]})
     crashed = [c for c in cases if c.get("coq") is None]
-    n = triage(ck, fam, evalable + crashed, verdicts + [0] * len(crashed), wfs + [True] * len(crashed),
-               clause, nontrivial, oracle_ok, module, fn, ctype, known_match, view)
+    n = triage(ck, fam_tag, evalable + crashed, verdicts + [0] * len(crashed), wfs + [True] * len(crashed),
+               clause, nontrivial, oracle_ok, module, fn, ctype, known_match, view, spec_is_property)
     ck.obligations.append(("correspondence %s (%d cases, model = implementation on every observation; oracle on every case)"
-                           % (fam, len(cases)), n == 0, "ok" if n == 0 else "see replay"))
+                           % (fam_tag, len(cases)), n == 0, "ok" if n == 0 else "see replay"))
     return cases
 
 
